@@ -109,9 +109,9 @@ class TrackingBackend:
             raise TargetError(target.name) from exc
 
     def close(self):
-        self.ops.close()
         with open(self._get_state_path(), "w") as state_file:
             json.dump(self._tracked_jobs, state_file)
+        self.ops.close()
 
     @property
     def target_defaults(self):
